@@ -105,7 +105,7 @@ def cases(ctx):
                     for s_vr in (0, 1):
                         for vrsrc in (0, 1):
                             yield from emit(st, s_ew, rng.randrange(1, 1024), s_ns, rng.randrange(1, 1024), vrsrc, s_vr, vr, "st%d-vr" % st)
-    for _ in range(ctx.n(8000, 300000)):
+    for _ in range(ctx.n(8000, 100000)):
         st = rng.randrange(1, 5)
         yield from emit(st, rng.randrange(2), rng.randrange(1024), rng.randrange(2), rng.randrange(1024), rng.randrange(2),
                         rng.randrange(2), rng.randrange(512), "st%d-rand" % st)
